@@ -15,6 +15,29 @@ _NO_REWRITE_CALLS = {"super", "locals", "globals", "vars", "eval", "exec"}
 
 
 class Rewriter(ast.NodeTransformer):
+    def __init__(self, havoc=()):
+        # havoc: iterable of (function name, variable name): the variable is replaced by a
+        # harness-controlled value right before the first for/while loop of that function
+        # (loop cut for inductive-step obligations; a no-op unless the harness arms it)
+        self.havoc = set(havoc)
+        self._fn = []
+
+    def visit_FunctionDef(self, node):
+        self._fn.append(node.name)
+        self.generic_visit(node)
+        self._fn.pop()
+        for (fn, var) in self.havoc:
+            if fn == node.name:
+                for i, st in enumerate(node.body):
+                    if isinstance(st, (ast.For, ast.While)) and any(
+                        isinstance(n, ast.Name) and n.id == var for n in ast.walk(st)
+                    ):
+                        # cut the last loop that mentions var
+                        idx = i
+                assign = ast.parse(f"{var} = {HOOK}.havoc({fn!r}, {var!r}, {var})").body[0]
+                node.body.insert(idx, ast.copy_location(assign, node.body[idx]))
+        return node
+
     def visit_Call(self, node):
         self.generic_visit(node)
         if isinstance(node.func, ast.Name) and node.func.id in _NO_REWRITE_CALLS:
@@ -78,6 +101,11 @@ _real_to_inst = {}  # id(real object) -> instrumented object
 SOURCES = {}  # real module name -> (path, sha1)
 
 
+HAVOC = {
+    "fastavro._schema_common": [("rabin_fingerprint", "result")],
+}
+
+
 def instrument(modname):
     """Return the instrumented sibling of real module `modname` (cached per process)."""
     if modname in _instrumented:
@@ -87,7 +115,7 @@ def instrument(modname):
     src = open(path).read()
     SOURCES[modname] = (path, hashlib.sha1(src.encode()).hexdigest())
     tree = ast.parse(src, filename=path)
-    tree = Rewriter().visit(tree)
+    tree = Rewriter(HAVOC.get(modname, ())).visit(tree)
     ast.fix_missing_locations(tree)
     code = compile(tree, path, "exec")
     mod = types.ModuleType(modname)
